@@ -99,7 +99,7 @@ theorem codeFwd_minus1 {exec : Exec} {s : SearchSt} {p : Nat} {e : Entry} {w : B
 
 /-- position `x` stops the forward search in state `s` -/
 def StopsF (c : Cache) (s : SearchSt) (x : Pos) : Prop :=
-  ∃ e, lookup c x.1 x.2.1 = some e ∧ stopFwd s x.1.toNat e x.2.2 = true
+  ∃ e, lookupX c x.1 x.2.1 = some e ∧ stopFwd s x.1.toNat e x.2.2 = true
 
 theorem stopsF_frozen {c : Cache} {s t : SearchSt} (h : Frozen s t) (x : Pos) : StopsF c t x ↔ StopsF c s x := by
   unfold StopsF
@@ -111,7 +111,7 @@ theorem stopsF_frozen {c : Cache} {s t : SearchSt} (h : Frozen s t) (x : Pos) : 
 theorem runPos_minus1 (exec : Exec) (c : Cache) : ∀ (L : List Pos) (s sf : SearchSt),
     runPos (pageFwd exec) c L s = (-1, sf) →
     ∀ (pre : List Pos) (x : Pos) (post : List Pos), L = pre ++ x :: post → (∀ y ∈ pre, ¬ StopsF c s y) →
-      ¬ StopsF c s x → ∀ e, lookup c x.1 x.2.1 = some e → codeFwd exec s x.1.toNat e x.2.2 = 0 := by
+      ¬ StopsF c s x → ∀ e, lookupX c x.1 x.2.1 = some e → codeFwd exec s x.1.toNat e x.2.2 = 0 := by
   intro L
   induction L with
   | nil => intro s sf _ pre x post h; simp at h
@@ -119,7 +119,7 @@ theorem runPos_minus1 (exec : Exec) (c : Cache) : ∀ (L : List Pos) (s sf : Sea
     intro s sf hrun pre x post hL hpre hx e he
     obtain ⟨ap, asub, aw⟩ := a
     rw [runPos_cons] at hrun
-    cases hla : lookup c ap asub with
+    cases hla : lookupX c ap asub with
     | none =>
       rw [hla] at hrun
       cases pre with
@@ -323,6 +323,46 @@ theorem hayFwd_nonempty (t : Text) (row col0 : Int) : 0 < (hayFwd t row col0).1.
   unfold hayFwdStep
   simp
 
+/-- in a fresh forward pass (cursor row 1, column 0) a level one page that does not stop the pass is searched from
+    its beginning: the return value tells whether the WHOLE text contains the pattern -/
+theorem codeFwd_fresh (exec : Exec) {s1 : SearchSt} (hr : s1.row0 = 1) (hc : s1.col0 = 0) (p : Nat) (e : Entry) (w : Bool)
+    (hlop : e.func = FUNC_LOP) (hns : stopFwd s1 p e w = false) :
+    codeFwd exec s1 p e w = (match exec {} (hayFwd e.text (-1) 0).1 with | none => 0 | some _ => 1) := by
+  unfold codeFwd
+  have hlop' : ¬ e.func ≠ FUNC_LOP := by simpa using hlop
+  rw [hns]
+  simp only [Bool.false_eq_true, if_false, hlop']
+  have hrow : cursorRow s1 p e = 1 ∨ cursorRow s1 p e = -1 := by
+    unfold cursorRow; split
+    · left; exact hr
+    · right; rfl
+  have hfirst : (hayFwd e.text (cursorRow s1 p e) s1.col0).2 = 0 := by
+    rw [hc]
+    rcases hrow with h1 | h1 <;> rw [h1]
+    · exact hayFwd_first_fresh e.text
+    · exact hayFwd_first_nocursor e.text 0
+  have hlen := hayFwd_nonempty e.text (cursorRow s1 p e) s1.col0
+  have hrl : ¬ cursorRow s1 p e > LAST_ROW := by
+    unfold LAST_ROW; rcases hrow with h1 | h1 <;> rw [h1] <;> decide
+  rw [if_neg hrl, hfirst, if_neg (by omega)]
+  simp only [List.drop_zero]
+  rw [hayFwd_fst_indep e.text (cursorRow s1 p e) s1.col0 (-1) 0]
+
+theorem codeFwd_not_stop {exec : Exec} {s : SearchSt} {p : Nat} {e : Entry} {w : Bool}
+    (h : codeFwd exec s p e w ≠ -1) : stopFwd s p e w = false := by
+  cases hs : stopFwd s p e w with
+  | false => rfl
+  | true => unfold codeFwd at h; rw [hs] at h; simp at h
+
+theorem codeFwd_one_lop {exec : Exec} {s : SearchSt} {p : Nat} {e : Entry} {w : Bool}
+    (h : codeFwd exec s p e w = 1) : e.func = FUNC_LOP := by
+  unfold codeFwd at h
+  split at h
+  · cases h
+  · split at h
+    · cases h
+    · rename_i h2; simpa using h2
+
 /-! ## NOT_FOUND on a fresh forward pass -/
 
 theorem statusOf_not_found {r : Int} (h : statusOf r = .ret SEARCH_NOT_FOUND) : r = -1 := by
@@ -343,14 +383,30 @@ theorem statusOf_not_found {r : Int} (h : statusOf r = .ret SEARCH_NOT_FOUND) : 
           · simp [h5] at h
           · simp [h5, SEARCH_ERROR, SEARCH_NOT_FOUND] at h
 
-theorem lookup_subno {c : Cache} {p sub : Int} {e : Entry} (h : lookup c p sub = some e) (hs : sub ≠ ANY_SUBNO) :
+theorem lookupX_subno {c : Cache} {p sub : Int} {e : Entry} (h : lookupX c p sub = some e) :
     (e.subno : Int) = sub := by
-  unfold lookup at h
-  by_cases hv : validPgno p = true
-  · simp only [hv, if_true] at h
-    have := List.find?_some h
-    simpa [pred, hs] using this
-  · simp [hv] at h
+  unfold lookupX at h
+  have := List.find?_some h
+  simpa [predX] using this
+
+theorem lookupX_mem {c : Cache} {p sub : Int} {e : Entry} (h : lookupX c p sub = some e) :
+    e ∈ (c.slots p.toNat).chain := by
+  unfold lookupX at h
+  exact List.mem_of_find?_eq_some h
+
+/-- a start position given with an exact sub-page number is where the walk starts -/
+theorem startSub_exact (c : Cache) (p sub : Int) (hs : sub ≠ ANY_SUBNO) : startSub c p sub = sub := by
+  unfold startSub startSubOf
+  cases hl : lookup c p sub with
+  | none => simp only; rw [if_neg hs]
+  | some e =>
+    simp only
+    unfold lookup at hl
+    by_cases hv : validPgno p = true
+    · simp only [hv, if_true] at hl
+      have := List.find?_some hl
+      simpa [pred, hs] using this
+    · simp [hv] at hl
 
 /-- a fresh forward pass: state after `prepare` -/
 theorem prepare_fresh_fwd {s : SearchSt} {d : Int} (hd : d > 0) (hfresh : s.dir = 0) :
@@ -361,14 +417,15 @@ theorem prepare_fresh_fwd {s : SearchSt} {d : Int} (hd : d > 0) (hfresh : s.dir 
   simp [hd, hfresh, FIRST_ROW]
 
 theorem searchNext_not_found_fresh_fwd (exec : Exec) (c : Cache) (s : SearchSt) (d : Int) (hd : d > 0)
-    (hfresh : s.dir = 0) (hno : NoAny c) (hne : c.nCached ≠ 0) (hp : PgOk s.stopPgno0)
+    (hfresh : s.dir = 0) (hne : c.nCached ≠ 0) (hp : PgOk s.stopPgno0) (hok : StartOk c s.stopPgno0)
     (h : (searchNext exec walkFuel c s d).res = .ret SEARCH_NOT_FOUND) :
     ∀ x ∈ walkPositions c s.stopPgno0 s.stopSubno0 1,
       (x.2.2 = false ∨ key x.1 x.2.1 < key s.stopPgno0 s.stopSubno0) →
-      ∀ e, lookup c x.1 x.2.1 = some e → e.func = FUNC_LOP → exec {} (hayFwd e.text (-1) 0).1 = none := by
+      ∀ e, lookupX c x.1 x.2.1 = some e → e.func = FUNC_LOP → exec {} (hayFwd e.text (-1) 0).1 = none := by
   obtain ⟨f1, f2, f3, f4, f5, f6⟩ := prepare_fresh_fwd (s := s) hd hfresh
   have hp' : PgOk (prepare s d).startPgno := by rw [f1]; exact hp
-  rw [searchNext_factors exec c s d hno hne hp'] at h
+  have hok' : StartOk c (prepare s d).startPgno := by rw [f1]; exact hok
+  rw [searchNext_factors exec c s d hne hp' hok'] at h
   have hr := statusOf_not_found h
   have hdir : dirOf d = 1 := by unfold dirOf; simp [hd]
   have hcb : callbackOf exec d = pageFwd exec := by unfold callbackOf; simp [hd]
@@ -380,15 +437,15 @@ theorem searchNext_not_found_fresh_fwd (exec : Exec) (c : Cache) (s : SearchSt) 
   obtain ⟨pre, post, hL⟩ := List.append_of_mem hx
   -- sortedness of the positions
   obtain ⟨o1, _, o3⟩ := (show (walkPositions c s.stopPgno0 s.stopSubno0 1).Pairwise LtF ∧ True ∧
-      ∀ y ∈ (walkPositions c s.stopPgno0 s.stopSubno0 1).tail, PgOk y.1 ∧ inRange (c.stat y.1) y.2.1 = true from by
+      ∀ y ∈ (walkPositions c s.stopPgno0 s.stopSubno0 1).tail, PgOk y.1 ∧ Landed (c.stat y.1) y.2.1 from by
     unfold walkPositions
     obtain ⟨g1, g2⟩ := positions_sorted_fwd c walkFuel s.stopPgno0 (startSub c s.stopPgno0 s.stopSubno0) false hp
     refine ⟨?_, trivial, ?_⟩
     · rw [List.pairwise_cons]; exact ⟨fun y hy => (g1 y hy).1, g2⟩
     · intro y hy; simp only [List.tail_cons] at hy; exact (g1 y hy).2)
-  -- a wrapped position lies in the tail, hence inside a window
+  -- a wrapped position lies in the tail, hence at a sub-page number 0 .. 0xFFFF of a valid page number
   have hwrapped : ∀ y ∈ walkPositions c s.stopPgno0 s.stopSubno0 1, y.2.2 = true →
-      PgOk y.1 ∧ inRange (c.stat y.1) y.2.1 = true := by
+      PgOk y.1 ∧ Landed (c.stat y.1) y.2.1 := by
     intro y hy hw
     unfold walkPositions at hy
     rcases List.mem_cons.mp hy with rfl | hy
@@ -404,11 +461,7 @@ theorem searchNext_not_found_fresh_fwd (exec : Exec) (c : Cache) (s : SearchSt) 
     rcases hyw with hyw | hyw
     · rw [hyw] at hst; exact absurd hst.1 (by simp)
     · obtain ⟨hpy, hiny⟩ := hwrapped y hy hst.1
-      have hb := inRange_bounds hiny
-      have hsub : (ey.subno : Int) = y.2.1 := lookup_subno hey (by
-        have h1 := ((inRange_iff _ _).mp hiny).2.2
-        have h2 := hno y.1
-        unfold ANY_SUBNO; omega)
+      have hsub : (ey.subno : Int) = y.2.1 := lookupX_subno hey
       have hpn : ((y.1.toNat : Nat) : Int) = y.1 := by unfold PgOk at hpy; omega
       rw [hpn, hsub] at hst
       omega
@@ -434,36 +487,18 @@ theorem searchNext_not_found_fresh_fwd (exec : Exec) (c : Cache) (s : SearchSt) 
           have hxw : x.2.2 = true := by rw [← h1]; exact hyw
           obtain ⟨_, hinx⟩ := hwrapped x hx hxw
           obtain ⟨_, hiny⟩ := hwrapped y hyL hyw
-          have bx := inRange_bounds hinx
-          have by' := inRange_bounds hiny
+          have bx := landed_bounds hinx
+          have by' := landed_bounds hiny
           unfold key at hxk ⊢
           omega
   have hcode := runPos_minus1 exec c _ _ _ hrp pre x post hL hprens hxns e he
   -- code 0 on a level one page that does not stop the pass: the matcher found nothing in the whole page
-  unfold codeFwd at hcode
   have hns : stopFwd (prepare s d) x.1.toNat e x.2.2 = false := by
     cases hsf : stopFwd (prepare s d) x.1.toNat e x.2.2 with
     | false => rfl
     | true => exact absurd ⟨e, he, hsf⟩ hxns
-  have hlop' : ¬ e.func ≠ FUNC_LOP := by simpa using hlop
-  rw [hns] at hcode
-  simp only [Bool.false_eq_true, if_false, hlop'] at hcode
-  have hrow : cursorRow (prepare s d) x.1.toNat e = 1 ∨ cursorRow (prepare s d) x.1.toNat e = -1 := by
-    unfold cursorRow; split
-    · left; exact f5
-    · right; rfl
-  have hfirst : (hayFwd e.text (cursorRow (prepare s d) x.1.toNat e) (prepare s d).col0).2 = 0 := by
-    rw [f6]
-    rcases hrow with h1 | h1 <;> rw [h1]
-    · exact hayFwd_first_fresh e.text
-    · exact hayFwd_first_nocursor e.text 0
-  have hlen := hayFwd_nonempty e.text (cursorRow (prepare s d) x.1.toNat e) (prepare s d).col0
-  have hrl : ¬ cursorRow (prepare s d) x.1.toNat e > LAST_ROW := by
-    unfold LAST_ROW; rcases hrow with h1 | h1 <;> rw [h1] <;> decide
-  rw [if_neg hrl, hfirst, if_neg (by omega)] at hcode
-  simp only [List.drop_zero] at hcode
-  rw [hayFwd_fst_indep e.text (-1) 0 (cursorRow (prepare s d) x.1.toNat e) (prepare s d).col0]
-  cases hx' : exec {} (hayFwd e.text (cursorRow (prepare s d) x.1.toNat e) (prepare s d).col0).1 with
+  rw [codeFwd_fresh exec f5 f6 _ _ _ hlop hns] at hcode
+  cases hx' : exec {} (hayFwd e.text (-1) 0).1 with
   | none => rfl
   | some mm => rw [hx'] at hcode; simp at hcode
 
